@@ -71,6 +71,14 @@ def one(ctx, toks, reqs, reals, src):
             ctx.fail("per-token-behaviour:%s" % (cp[k]["type"] if 0 <= k < len(cp) else "count"),
                      "filter output differs from 'collapse each run to one space outside preserve regions, everything else unchanged'",
                      {"tokens": repr(cp), "index": k})
+        def nows(x):
+            return "".join(c for c in x if c not in WS)
+        for a, b in zip(cp, out):
+            if a["type"] in ("Characters", "SpaceCharacters") and b["type"] in ("Characters", "SpaceCharacters") \
+                    and nows(a["data"]) != nows(b["data"]):
+                ctx.fail("non-whitespace-altered:%s" % a["type"], "a character other than the five ASCII whitespace characters was changed",
+                         {"token": repr(a), "out": repr(b), "source": src})
+                break
         run = cross_token_runs(out)
         if run is not None:
             ctx.fail("whitespace-run-split-across-tokens", "a whitespace run split over adjacent text tokens is not collapsed to one space",
